@@ -134,7 +134,8 @@ Definition slot_bytes (s : slot) : nat := match s with Owned _ b => b | _ => 0 e
 
 Inductive bres := BOk | BFalse | BThrow (r : reason) | BUB.
 
-Definition live (cs : cstate) (k : nat) : bool := match get_obj (cw cs) k with Some _ => true | None => false end.
+(* table->data != NULL *)
+Definition live (cs : cstate) (k : nat) : bool := negb (is_null (gget cs (p_h k))).
 
 (* one C++ member call on the object world *)
 Definition lift_step (c : cfg) (F : nat -> bool) (cs : cstate) (x : op) : cstate * bres :=
@@ -142,7 +143,7 @@ Definition lift_step (c : cfg) (F : nat -> bool) (cs : cstate) (x : op) : cstate
   | (w', Ok) => (with_cw cs w', BOk)
   | (w', Failed r) => (with_cw cs w', BThrow r)
   | (w', UB) => (with_cw cs w', BUB)
-  | (w', Skipped) => (cs, BUB)                     (* no object: the wrapper dereferenced a NULL table->data *)
+  | (w', Skipped) => (with_cw cs w', BUB)          (* no object: the wrapper dereferenced a NULL table->data *)
   end.
 
 (* delete static_cast<splinetable<>*>(table->data); table->data=NULL   (splinetable.cpp:25-27) *)
@@ -353,7 +354,7 @@ Definition valid_call (cs : cstate) (call : ccall) : bool :=
   && match c_nulls call with [] => true | _ => false end
   && match c_args call with
      | AInit => negb (live cs (c_h call))                          (* initialising a handle twice abandons the first table *)
-     | AWriteMem b _ _ => Nat.ltb b 2
+     | AWriteMem b _ _ => Nat.ltb b 2 && is_null (gget cs (p_b b))        (* the buffer struct is empty, as the wrapper demands *)
      | ABufFree b => Nat.ltb b 2
      | AGrideval r _ => Nat.ltb r 2 && is_null (gget cs (p_rs r)) && is_null (gget cs (p_rp r))   (* the result variable is free *)
      | ANdDestroy r => Nat.ltb r 2
@@ -367,6 +368,26 @@ Fixpoint valid_sequence (gt : list glue) (c : cfg) (F GF : nat -> bool) (cs : cs
   end.
 
 Definition all_released (cs : cstate) : bool := forallb is_null (gs cs).
+
+(* the wrappers that are ONE member call on an existing object, and that member (the C++ twin) *)
+Definition single_twin (a : cargs) (k : nat) : option op :=
+  match a with
+  | AWrite fails => Some (OWrite k fails) | AWriteKey i e => Some (OWriteKey k i e) | AConvolve d n => Some (OConvolve k d n)
+  | AFit s => Some (OFit k s) | APermute p => Some (OPermute k p) | AEval | ADeriv => Some (OEval k) | _ => None
+  end.
+(* what the C caller gets for an outcome of the twin *)
+Definition lift (g : glue) (o : outcome) : cres :=
+  match o with
+  | Ok => ret_ok g
+  | Failed r => if g_try g then ret_of (g_catch_ret g) else Escaped r
+  | UB | Skipped => Crashed
+  end.
+Definition after (g : glue) (cs : cstate) (w' : world) (o : outcome) : cstate :=
+  match o with
+  | Ok => with_cw cs w'
+  | Failed _ => if g_try g then with_cw cs w' else kill (with_cw cs w')     (* std::terminate *)
+  | _ => kill (with_cw cs w')
+  end.
 
 (* the glue table of the UNCHANGED tree (a37ac82 + the fixes of other properties), for the refutations *)
 Definition nd_destroy_orig : glue :=
